@@ -38,6 +38,21 @@ def estimatedDate (primary secondary : List Str) : Option DateR :=
   let ds := if primary.isEmpty then secondary else primary
   (minimumRange (ds.map parseDateRange)).map ofParsed
 
+/-- two dates of the list start at exactly the same point of the `Years()` scale (e.g. `Dec 1880`,
+    whose value is the midpoint of 1 and 31 December, and `16 Dec 1880`) but are different ranges:
+    `Minimum` decides between them with a float64 `<` whose operands are equal here, and the
+    last bit of `(start + end) / 2` decides in Go.  Such a selection is a decision on an exact tie:
+    the driver flags it and the harness compares the case as inconclusive. -/
+def minimumTie (ds : List Gedcom.DateRange) : Bool :=
+  ds.any fun a => ds.any fun b =>
+    !a.start.yearsLt b.start && !b.start.yearsLt a.start && ofParsed a != ofParsed b
+
+def estimatedDateTie (primary secondary : List Str) : Bool :=
+  minimumTie ((if primary.isEmpty then secondary else primary).map parseDateRange)
+
+def RawIndi.dateTie (r : RawIndi) : Bool :=
+  estimatedDateTie r.births r.baptisms || estimatedDateTie r.deaths r.burials
+
 def RawIndi.toIndi (r : RawIndi) : Indi :=
   ⟨r.id, r.names, estimatedDate r.births r.baptisms, estimatedDate r.deaths r.burials⟩
 
